@@ -189,7 +189,14 @@ func boundInScope(eco, s string) bool {
 	}
 	switch eco {
 	case "npm", "composer", "cargo", "semver":
-		for _, part := range strings.Split(s, ".") {
+		// an x / X in a major, minor or patch position selects the wildcard construct; one among
+		// the pre-release or build identifiers (1.0.0-alpha.x) is an ordinary identifier of a
+		// valid version and stays in scope
+		core := s
+		if i := strings.IndexAny(core, "-+"); i >= 0 {
+			core = core[:i]
+		}
+		for _, part := range strings.Split(core, ".") {
 			if part == "x" || part == "X" {
 				return false
 			}
